@@ -545,4 +545,79 @@ example : (filterE (resultTarget_estOnly exRP) exRs).map (List.map (·.id)) = .o
 
 end Results
 
+/-! ## locality: every element is judged on its own -/
+
+/-- the loop judges every element on its own: the answer on a concatenation is the concatenation of the answers
+(`for x in xs: if f(x): out.append(x)` carries no state from one element to the next) -/
+theorem filterE_append {α} (f : α → Except Err Bool) (as bs ka kb : List α)
+    (ha : filterE f as = .ok ka) (hb : filterE f bs = .ok kb) : filterE f (as ++ bs) = .ok (ka ++ kb) := by
+  induction as generalizing ka with
+  | nil => simp [filterE] at ha; subst ha; simpa using hb
+  | cons a as ih =>
+    unfold filterE at ha
+    rw [List.cons_append]; unfold filterE
+    cases hf : f a with
+    | error e => rw [hf] at ha; cases ha
+    | ok b =>
+      rw [hf] at ha
+      cases hr : filterE f as with
+      | error e => rw [hr] at ha; cases ha
+      | ok ks =>
+        rw [hr] at ha
+        simp only [Except.ok.injEq] at ha
+        rw [ih ks hr]
+        subst ha
+        cases b <;> simp
+
+/-- `filter_objects` on a concatenation = concatenation of the two answers -/
+theorem filter_append {P : Params} {os₁ os₂ ks₁ ks₂ : List Obj}
+    (h₁ : filterObjects P os₁ = .ok ks₁) (h₂ : filterObjects P os₂ = .ok ks₂) :
+    filterObjects P (os₁ ++ os₂) = .ok (ks₁ ++ ks₂) :=
+  filterE_append _ _ _ _ _ h₁ h₂
+
+/-- `filter_object_results` on a concatenation = concatenation of the two answers -/
+theorem filterResults_append {P : Params} {rs₁ rs₂ ks₁ ks₂ : List Res}
+    (h₁ : filterResults P rs₁ = .ok ks₁) (h₂ : filterResults P rs₂ = .ok ks₂) :
+    filterResults P (rs₁ ++ rs₂) = .ok (ks₁ ++ ks₂) :=
+  filterE_append _ _ _ _ _ h₁ h₂
+
+/-- a single object is kept iff it meets the criteria — whatever else is in the list (with `filter_append`: the fate of an
+object does not depend on its neighbours or on its position) -/
+theorem filter_singleton {P : Params} {o : Obj} {ks : List Obj} (h : filterObjects P [o] = .ok ks) :
+    (Criteria P o → ks = [o]) ∧ (¬ Criteria P o → ks = []) := by
+  have hm := mem_filter_iff h o
+  have hs := filter_sublist h
+  constructor
+  · intro hc
+    have : o ∈ ks := hm.2 ⟨by simp, hc⟩
+    have hl := hs.length_le
+    match ks, this, hl, hs with
+    | [x], hx, _, hs' => simp at hx; rw [hx]
+    | x :: y :: zs, _, hl', _ => simp at hl'
+  · intro hc
+    match ks, hm, hs with
+    | [], _, _ => rfl
+    | x :: zs, hm', hs' =>
+      have hx : x = o := by
+        have := hs'.subset (List.mem_cons_self)
+        simpa using this
+      exact absurd (hm'.1 (by rw [hx]; simp)).2 hc
+
+/-- the kept list never is longer than the input, and is the whole input iff every object meets the criteria -/
+theorem filter_length {P : Params} {os ks : List Obj} (h : filterObjects P os = .ok ks) :
+    ks.length ≤ os.length ∧ (ks = os ↔ ∀ o ∈ os, Criteria P o) := by
+  refine ⟨(filter_sublist h).length_le, ?_, ?_⟩
+  · intro e o ho
+    rw [← e] at ho
+    exact ((mem_filter_iff h o).1 ho).2
+  · intro hall
+    obtain ⟨hex, hks⟩ := filterE_ok h
+    rw [hks]
+    apply List.filter_eq_self.2
+    intro o ho
+    obtain ⟨b, hb⟩ := hex o ho
+    have hb' := (isTarget_iff_criteria hb).2 (hall o ho)
+    subst hb'
+    simp [hb]
+
 end PEval.C10
